@@ -9,6 +9,38 @@ import perm_native as N
 import perm_units as U
 
 
+def slm_switch():
+    """the interaction matrix changes at a step boundary (an SLM mask ends): the MPO is rebuilt there and must
+    still carry the drives of the step that follows -- emu-mps against emu-sv on the same SequenceData"""
+    import dataclasses
+    from emu_base.pulser_adapter import _InteractionMatrixCallable
+    from emu_mps import MPSBackend, MPSConfig
+    from emu_sv import SVConfig
+    from emu_sv.sv_backend import SVBackend
+    from pulser.backend import Occupation
+    steps = 6
+    full = N.chain_matrix((1.5, 2.0, 2.5))
+    masked = full.clone()
+    masked[3, :] = 0.0
+    masked[:, 3] = 0.0
+    om, de, ph = N.local_drives(steps)
+    from native_util import make_sequence_data
+    sd = make_sequence_data(4, steps, matrix=full, omega=om * 3.0, delta=de, phi=ph)
+    sd = dataclasses.replace(sd, interaction_matrix=_InteractionMatrixCallable(full, masked, 20.0))   # ends at a grid time
+    occ = {}
+    for name, backend, cfg in (("emu-mps", MPSBackend, MPSConfig(observables=[Occupation(evaluation_times=[1.0])], log_level=50,
+                                                               optimize_qubit_ordering=False, precision=1e-9)),
+                               ("emu-sv", SVBackend, SVConfig(observables=[Occupation(evaluation_times=[1.0])], log_level=50,
+                                                             gpu=False, krylov_tolerance=1e-10))):
+        res = backend._run_from_sequence_data(sd, cfg)
+        occ[name] = torch.as_tensor(res.occupation[-1]).double()
+    if not torch.allclose(occ["emu-mps"], occ["emu-sv"], atol=2e-4):
+        return (f"interaction matrix switches at t = 20 ns (step boundary, SLM mask on atom 3 ends), local drives: final "
+                f"occupations emu-mps {[round(float(x), 5) for x in occ['emu-mps']]} vs emu-sv "
+                f"{[round(float(x), 5) for x in occ['emu-sv']]}")
+    return None
+
+
 def main():
     N.setup()
     N.in_tmp_dir()
@@ -38,6 +70,9 @@ def main():
     if not torch.allclose(a, b, atol=1e-6):
         msgs.append(f"end-to-end: final occupations with optimize_qubit_ordering=False {[round(float(x), 5) for x in b]}"
                     f" vs True {[round(float(x), 5) for x in a]} (atom order {tuple(r_on.atom_order)})")
+    m = slm_switch()
+    if m:
+        msgs.append(m)
     if msgs:
         print("REPRODUCED: " + msgs[0])
         for m in msgs[1:]:
